@@ -19,7 +19,7 @@ type c09Insp struct {
 	Name      string     `json:"name"`
 	Ops       []string   `json:"ops"`    // emit operations on relative paths (w: a: rm:)
 	Exit      int        `json:"exit"`   // exit status of the command
-	Broken    string     `json:"broken"` // "" | missing | empty | directory
+	Broken    string     `json:"broken"` // "" | missing | empty | directory | bare-missing | dot-missing
 	MatRules  [][]string `json:"material_rules"`
 	ProdRules [][]string `json:"product_rules"`
 }
@@ -64,6 +64,11 @@ func applyOps(tree map[string]string, ops []string) {
 						delete(tree, k)
 					}
 				}
+			}
+		case "lnout":
+			// the path becomes a symbolic link to a file elsewhere with this content
+			if len(p) == 3 {
+				tree[p[1]] = p[2]
 			}
 		case "crlf":
 			if len(p) >= 2 {
@@ -123,7 +128,12 @@ func c09Gen(t *rapid.T) c09Case {
 	}
 	nEdits := rapid.SampledFrom([]int{0, 0, 0, 1, 1, 2}).Draw(t, "nedits")
 	for i := 0; i < nEdits; i++ {
-		switch rapid.IntRange(0, 7).Draw(t, "edit") {
+		switch rapid.IntRange(0, 9).Draw(t, "edit") {
+		case 8:
+			// a final product replaced by a symbolic link to other content outside the directory
+			c.DirEdits = append(c.DirEdits, "lnout:"+pick("linkedfile")+":something else entirely\n")
+		case 9:
+			c.DirEdits = append(c.DirEdits, "lnout:added-link.bin:evil")
 		case 7:
 			// an added regular file that carries a special mode bit
 			c.DirEdits = append(c.DirEdits, "w:"+rapid.SampledFrom([]string{"setuid", "setgid", "sticky"}).Draw(t, "modebit")+"-tool:evil")
@@ -165,7 +175,7 @@ func c09Gen(t *rapid.T) c09Case {
 		case 3:
 			in.Exit = rapid.SampledFrom([]int{1, 2, 42, 127, 255, -9, -15}).Draw(t, "exit") // negative: the command kills itself with that signal
 		case 4:
-			in.Broken = rapid.SampledFrom([]string{"missing", "empty", "directory", "bare-missing", "bare-missing"}).Draw(t, "broken")
+			in.Broken = rapid.SampledFrom([]string{"missing", "empty", "directory", "bare-missing", "bare-missing", "dot-missing", "dot-missing"}).Draw(t, "broken")
 			if in.Broken == "bare-missing" {
 				// the tool the layout asks for does not exist on this machine - but the delivered directory
 				// holds an executable of that name
@@ -359,6 +369,15 @@ func c09Run(c c09Case, r *hx.Rec) error {
 			mi.Run = []string{"@ROOT@"}
 		case "bare-missing":
 			mi.Run = []string{"c09-tool-that-is-not-installed", "--check"}
+		case "dot-missing":
+			// the check the layout asks for was stripped from the delivered directory; the directory the
+			// verifier happens to be started from (another one, with the run-directory entry point) holds a
+			// program of that name: it is not the one to run
+			mi.Run = []string{"./c09-selftest", "--check"}
+			if w.Entry == "rundir" {
+				w.Links = append(append([]hx.WMetaFile{}, w.Links...), hx.WMetaFile{Name: "c09-selftest", Raw: "#!/bin/sh\nexit 0\n", InCwd: true, Special: "exec"})
+				r.Label("namesake-of-the-missing-check-in-the-working-directory")
+			}
 		default:
 			mi.Run = append([]string{"@EMIT@", "log:@LOG@:" + in.Name}, in.Ops...)
 			if in.Exit < 0 {
@@ -383,6 +402,12 @@ func c09Run(c c09Case, r *hx.Rec) error {
 		}
 		if p == "c09-tool-that-is-not-installed" {
 			wf.Special = "exec"
+		}
+		for _, ed := range c.DirEdits {
+			if f := strings.SplitN(ed, ":", 3); len(f) == 3 && f[0] == "lnout" && f[1] == p && f[2] == tree[p] {
+				wf.Special = "filelink"
+				r.Label("product-is-a-link-to-a-file-elsewhere")
+			}
 		}
 		w.Product = append(w.Product, wf)
 	}
